@@ -28,7 +28,7 @@ REQUIRED = ["at_most_once_atomic", "at_most_one_success_atomic", "at_most_one_su
             "two_success_witness", "two_success_witness_mark", "at_most_once_fails_without_atomicity",
             "at_most_once_partial", "mark_separated_partial",
             "store_fault_fails_closed", "nonce_covers_window", "replay_window_empty_today", "s2s_no_replay_inside_window", "program_matches_api_calls",
-            "fact_consumer_calls", "fact_store_keys", "fact_call_sites", "fact_engine_wiring", "fact_keyspace_disjoint", "keyspace_disjoint", "fact_store_users", "fact_prefixes_distinct", "fact_gad_atomic_today",
+            "fact_consumer_calls", "fact_store_keys", "fact_call_sites", "fact_engine_wiring", "fact_keyspace_disjoint", "keyspace_disjoint", "keyspace_disjoint_redis", "fact_key_construction", "put_total_on_keys", "fact_store_users", "fact_prefixes_distinct", "fact_gad_atomic_today",
             "fact_mark_atomic_today", "fact_session_store_shapes", "fact_ttls_positive", "two_success_witness_multinode"]
 
 
@@ -50,6 +50,7 @@ def oracle(op, line, facts):
         first.setdefault(s, pos); tfirst.setdefault(s, now)
         last[s] = pos; tlast[s] = now
     where = f"{op.get('level')}:{op.get('backend')}" + (":strict-delete" if op.get("strict") else "")
+    short = lambda x: x if len(x) <= 24 else f"{x[:8]}…{x[-4:]} ({len(x)} chars)"
     witness_replayed = None
     for i, a in enumerate(threads):
         for j, b in enumerate(threads):
@@ -59,9 +60,9 @@ def oracle(op, line, facts):
             both = outs[i] == "ok" and outs[j] == "ok"
             if k in BURN:
                 if both:
-                    bad.append((f"C05:{k}:{where}:two-requests-honoured", f"threads {i} and {j} both succeeded with secret {a['id']}"))
+                    bad.append((f"C05:{k}:{where}:two-requests-honoured", f"threads {i} and {j} both succeeded with secret {short(a['id'])}"))
             elif both and abs(tlast.get(i, 0) - tlast.get(j, 0)) < ttl(k):
-                bad.append((f"C05:{k}:{where}:two-requests-honoured", f"threads {i} and {j} both accepted {a['id']} within the nonce TTL"))
+                bad.append((f"C05:{k}:{where}:two-requests-honoured", f"threads {i} and {j} both accepted {short(a['id'])} within the nonce TTL"))
     # store faults fail closed: a request whose own store call failed is never honoured
     for i, a in enumerate(threads):
         if a.get("fail") and i < len(outs) and outs[i] == "ok":
@@ -174,8 +175,8 @@ def run(ctx):
                 sig = f"C05:{op['kind']}:iam:mem:honoured-after-hostile-response"
                 if sig not in seen:
                     seen.add(sig)
-                    ctx.violation(sig, f"the {op['kind']} secret was honoured a second time after an authorization response with disagreeing challenges "
-                                  f"(drawn from the tails of every session-store key) had been posted: {line}", re.sub(r"[^A-Za-z0-9_.-]", "_", sig) + ".jsonl", ops[i])
+                    ctx.violation(sig, f"the {op['kind']} secret was honoured a second time after hostile requests (authorization responses, token requests, request-object "
+                                  f"fetches, landing page) had named every '/'-tail of and '../'-path to every session-store key: {line}", re.sub(r"[^A-Za-z0-9_.-]", "_", sig) + ".jsonl", ops[i])
             continue
         if op.get("op") != "run":
             continue
